@@ -71,6 +71,28 @@ def run_bounded(prop, tier='quick'):
     return r
 
 
+# families of OTHER properties whose units a property's argument composes with (the same relation as `composes_with`, for the bounded route): a case that one family has and
+# its neighbour lacks was the cause of every miss of seed round 13.  After a property's own family passes, the neighbour families run too; a failing input there is a failing
+# input of a unit this property relies on.
+NEIGHBOUR_FAMILIES = {'C10': ['C03'], 'C04': ['C05', 'C01'], 'C14': ['C05'], 'C15': ['C02'], 'C09': ['C02'], 'C13': ['C02', 'C16'], 'C03': ['C01']}
+
+
+def run_bounded_all(prop, tier='quick'):
+    b = run_bounded(prop, tier)
+    if b.get('status') != 'pass' or os.environ.get('VERIF_AS_DEPENDENCY'):
+        return b
+    b['neighbour_families'] = []
+    for nb in NEIGHBOUR_FAMILIES.get(prop, []):
+        r = run_bounded(nb, tier)
+        b['neighbour_families'].append(dict(family=nb, status=r.get('status'), cases=r.get('cases')))
+        if r.get('status') == 'fail':
+            b['status'] = 'fail'
+            b['failing_input'] = '(family of %s, whose units the argument of %s composes with) %s' % (nb, prop, r.get('failing_input', ''))
+            b['cmd'] = r['cmd']
+            break
+    return b
+
+
 BOUNDED_RULE = ('part A: deterministic hand-built family of inputs in rx/src/bounded*.rs; part B: RX_BUDGET (quick 200 / thorough 50000) structured inputs from a PRNG seeded by VERIF_SEED (small dyadic coefficients/values so every expected number is exact in f64; '
                 'every representation shape named by the property); each case runs the REAL compiled ommx code and compares with an independent '
                 'executable form of the contract; distinct = distinct (input) tuples')
@@ -120,7 +142,7 @@ def main():
         if reason.split(':')[0] in ('lost-anchor', 'tool-limit', 'rlimit', 'tool-failure', 'unstable-proof') and not os.environ.get('VERIF_NO_BOUNDED'):
             # the code left the verifier's dialect (or budget): the deductive route gives no verdict on this tree.
             # Fall back to the bounded stand-in on the real compiled code - labelled bounded, never counted as proved.
-            b = run_bounded(prop, tier)
+            b = run_bounded_all(prop, tier)
             if b['status'] in ('pass', 'fail'):
                 ev['level'] = 'exploration'
                 ev['coverage'] = dict(evaluations=b['cases'], distinct_nontrivial=b['distinct'], rule=BOUNDED_RULE, samples=b['samples'] or ['(none recorded)'],
@@ -418,7 +440,7 @@ def main():
     # bounded stand-in on the real compiled code: covers callees whose contracts are only assumed, and supplies a witness for a failed obligation
     bounded = None
     if not os.environ.get('VERIF_NO_BOUNDED'):
-        bounded = run_bounded(prop, tier)
+        bounded = run_bounded_all(prop, tier)
         if bounded['status'] == 'error' and not new_viol:
             return undecided('broken-check:bounded-stand-in-error', bounded.get('detail', ''))
         if bounded['status'] in ('pass', 'fail'):
